@@ -72,6 +72,11 @@ impl SwarmDriver {
     pub fn verif_fetcher_farthest(&self) -> Option<libp2p::kad::KBucketDistance> {
         crate::replication_fetcher::verif_fetcher::fetcher_farthest(&self.replication_fetcher)
     }
+    /// What the driver's periodic range estimate does with its result: the responsible range of store and fetcher.
+    pub fn verif_set_responsible_range(&mut self, distance: ant_evm::U256) {
+        self.swarm.behaviour_mut().kademlia.store_mut().set_distance_range(distance);
+        self.replication_fetcher.set_replication_distance_range(distance);
+    }
     pub fn verif_fetcher_view(&self) -> (usize, usize) {
         let f = crate::replication_fetcher::verif_fetcher::fetcher_counts(&self.replication_fetcher);
         f
